@@ -164,6 +164,30 @@ def sign(x):
     return r.astype(a.d)
 
 
+def split(ary, indices_or_sections, axis=0):
+    """numpy.split at concrete positions (symbolic positions are decided by forking); pieces of a
+    symbolic-length array are not modelled."""
+    a = asarray(ary)
+    if axis != 0 or a.o.ndim != 1:
+        raise HarnessError("numpy.split along axis %r of a %d-d array" % (axis, a.o.ndim))
+    a = a.fixed()
+    n = a.o.shape[0]
+    if isinstance(indices_or_sections, (int, SInt)):
+        k = _cint(indices_or_sections)
+        if k <= 0 or n % k:
+            raise ValueError("array split does not result in an equal division")
+        cuts = [i * (n // k) for i in range(1, k)]
+    else:
+        ia = asarray(indices_or_sections).fixed()
+        cuts = [_cint(x) for x in ia.o.reshape(-1)]
+    out = []
+    prev = 0
+    for c in cuts + [n]:
+        out.append(a[prev:c])       # Python slice semantics, as NumPy (decreasing cut points give empty pieces)
+        prev = c
+    return out
+
+
 class LazyBincount:
     """bincount of symbolic magnitudes (C01): a sparse view -- positions are the distinct
     magnitudes (solver-ordered), counts are concrete.  Supports what from_array consumes."""
@@ -908,7 +932,7 @@ class NumpyShim:
         for name in ("where nonzero isnan isinf isfinite isclose allclose array_equal sum nansum prod count_nonzero any all "
                      "amax amin sqrt absolute bincount argsort sort unique setxor1d cumsum cumprod flip append concatenate "
                      "column_stack stack hstack vstack ascontiguousarray clip diff digitize repeat take zeros_like ones_like empty_like full_like flatnonzero logical_not logical_and logical_or maximum minimum isin in1d ndim shape size nanmax nanmin mean copyto searchsorted apply_along_axis errstate quantile nanquantile cov "
-                     "corrcoef generic integer").split():
+                     "corrcoef generic integer split").split():
             setattr(self, name, g[name])
         self.max = amax
         self.min = amin
